@@ -141,7 +141,8 @@ Fixpoint drive (fuel : nat) (n : nat) (c : option cause) (fail0 : bool) (s : sst
    A composite starts each part at the finish time of the previous one; once(n) emits n tokens
    at its start and lasts 0; const(0, d) emits nothing and lasts d. *)
 
-Inductive part := POnce (n : Z) | PPause (d : Z).
+Inductive part := POnce (n : Z) | PPause (d : Z) | PConst (n period d : Z).
+(* PConst: schedule.NewConst with n tokens, token i at i*period after its start, lasting d *)
 
 Fixpoint istep_loop (fuel : nat) (i to step dur : Z) : option (list part) :=
   if i <=? to then
@@ -165,6 +166,8 @@ Fixpoint flatten (start : Z) (ps : list part) : list Z :=
   | [] => []
   | POnce n :: r => repeat start (Z.to_nat n) ++ flatten start r
   | PPause d :: r => flatten (start + d) r
+  | PConst n period d :: r =>
+      map (fun i => start + Z.of_nat i * period) (seq 0 (Z.to_nat n)) ++ flatten (start + d) r
   end.
 
 (* what docs/eng/startup.md says: `from` instances at 0, then `step` more at j*dur for every
